@@ -12,7 +12,8 @@ Line-protocol handler for the cache-protocol model (property C18).
 
 `f` = cacheStoreOrLoad as it is now, `o` = before commit 231d3ca.  getter: `1>2,2>d,3>e`
 (reference 1 holds reference 2, 2 a direct object, 3 fails; unlisted: direct), `-` for none.
-Program syntax: see `parseOp`.
+Program syntax: see `parseOp`; `pre/rest|…`: thread 0 makes the calls `pre` alone before the
+threads are scheduled (see `parseSolo`).
 -/
 namespace PdfVerif.Driver.CONC
 open PdfVerif PdfVerif.CONC
@@ -122,7 +123,14 @@ def parseThreads (ss : List String) (ctr : Nat) : Option (List (List Op)) :=
     | none => none
 
 def parseProg (s : String) : Option (List (List Op)) :=
-  if s == "-" then some [] else parseThreads (s.splitOn "|") 0
+  if s == "-" then some [] else parseThreads ((s.replace "/" ",").splitOn "|") 0
+
+/-- `pre/rest|…`: the number of calls before the `/` in thread 0's text; thread 0 makes them alone,
+before any other thread is scheduled (a prelude which brings the cache into a chosen state) -/
+def parseSolo (s : String) : Nat :=
+  match s.splitOn "/" with
+  | pre :: _ :: _ => ((pre.splitOn ",").filter (· ≠ "")).length
+  | _ => 0
 
 /-- getter spec: list of `(ref, result)` -/
 def parseGetter (s : String) : Option (List (Ref × GetRes)) :=
@@ -235,13 +243,29 @@ def addOutcome (acc : List (String × Nat)) (o : String) : List (String × Nat) 
   | [] => [(o, 1)]
   | (o', c) :: rest => if o' == o then (o', c + 1) :: rest else (o', c) :: addOutcome rest o
 
+/-- the prelude of thread 0 is still running: more than `rest0` of its top-level calls are still
+to be made, or the last call of the prelude has not returned yet -/
+def soloPending (d : DState) (rest0 : Nat) : Bool :=
+  let todo := (getTh d 0).todo.length
+  todo > rest0 || (todo == rest0 && !(d.m.thr 0).isEmpty)
+
+/-- the states reachable by one scheduling step: of thread 0 alone while its prelude runs (and it
+can move), of every enabled thread otherwise -/
+def nextStates (cfg : Cfg) (n rest0 : Nat) (d : DState) : List DState :=
+  let all := (List.range n).filterMap fun t => advance cfg d t
+  if soloPending d rest0 then
+    match advance cfg d 0 with
+    | some d' => [d']
+    | none => all
+  else all
+
 /-- depth-first over every enabled thread at every scheduling point -/
-def explore (cfg : Cfg) (n mr : Nat) : Nat → DState → List (String × Nat) → List (String × Nat)
+def explore (cfg : Cfg) (n mr rest0 : Nat) : Nat → DState → List (String × Nat) → List (String × Nat)
   | 0, _, acc => addOutcome acc "fuel"
   | fuel + 1, d, acc =>
-    let next := (List.range n).filterMap fun t => advance cfg d t
+    let next := nextStates cfg n rest0 d
     if next.isEmpty then addOutcome acc (showOutcome d n mr)
-    else next.foldl (fun acc d' => explore cfg n mr fuel d' acc) acc
+    else next.foldl (fun acc d' => explore cfg n mr rest0 fuel d' acc) acc
 
 def insertSorted (x : String × Nat) : List (String × Nat) → List (String × Nat)
   | [] => [x]
@@ -274,7 +298,9 @@ def handle (args : List String) : String :=
     match parseGetter getter, parseProg prog with
     | some g, some p =>
       let cfg := mkCfg (ver == "f") g
-      let res := sortOutcomes (explore cfg p.length (maxRef p g) 4000 (initD p) [])
+      -- without a prelude `rest0` is the number of calls of thread 0: never pending
+      let rest0 := (p.headD []).length - parseSolo prog
+      let res := sortOutcomes (explore cfg p.length (maxRef p g) rest0 4000 (initD p) [])
       let total := res.foldl (fun n x => n + x.2) 0
       s!"n={total} k={res.length} " ++ " ".intercalate (res.map fun (o, c) => s!"{o}*{c}")
     | _, _ => "bad-args"
